@@ -84,6 +84,12 @@ def families(ch):
                                                                {"name": "t", "type": {"type": "long", "logicalType": "timestamp-micros"}}]},
         "Bad_dup": {"type": "record", "name": "Dup", "fields": [{"name": "a", "type": {"type": "fixed", "name": "F", "size": 1}}, {"name": "b", "type": {"type": "fixed", "name": "F", "size": 2}}]},
         "Bad_sym": {"type": "enum", "name": "E", "symbols": ["A", "A"]},
+        "UAB_1": {"type": "record", "name": "Top", "fields": [{"name": "u", "type": [
+            {"type": "record", "name": "A", "fields": [{"name": "x", "type": ["null", "int"], "default": None}]},
+            {"type": "record", "name": "B", "fields": [{"name": "y", "type": ["null", "int"], "default": None}]}]}]},
+        "UAB_2": {"type": "record", "name": "Top", "fields": [{"name": "u", "type": [
+            {"type": "record", "name": "A", "fields": [{"name": "y", "type": ["null", "int"], "default": None}]},
+            {"type": "record", "name": "B", "fields": [{"name": "x", "type": ["null", "int"], "default": None}]}]}]},
         "Prim": "long",
         "Union": ["null", "string", {"type": "record", "name": "R", "fields": [{"name": "u", "type": "boolean"}]}],
     }
@@ -104,6 +110,8 @@ DATA = {
     "Dec_30": [decimal.Decimal("1234567890123456789012345678.90")],
     "Dec_3": [decimal.Decimal("12.3")],
     "Rec_dec": [{"d": decimal.Decimal("12345"), "t": datetime.datetime(2020, 1, 2, 3, 4, 5, 6, tzinfo=datetime.timezone.utc)}],
+    "UAB_1": [{"u": {"y": 7}}, {"u": {"x": 1}}, {"u": {}}],
+    "UAB_2": [{"u": {"y": 7}}, {"u": {"x": 1}}, {"u": {}}],
     "Prim": [5, -1],
     "Union": [None, "s", {"u": True}],
     # reference-only schemas: data for the contexts in which they can be parsed
@@ -141,6 +149,7 @@ class History:
         self.texts = []       # (name, family key)
         self.handles = []     # (name, family key)
         self.dicts = []
+        self.tmpdir = None
         self.fam = families(ch)
         self.keys = sorted(self.fam)
         for k in self.keys:
@@ -167,6 +176,38 @@ class History:
             self.gen_data = getattr(self, "gen_data", {})
             self.gen_data[key] = len(DATA_local)
         self.E = copy.deepcopy(self.base)
+        # swarm: each history concentrates on one group of schemas that clash on a type name
+        groups = [["R_a", "R_b", "R_enum", "R_ns", "Outer_R", "Uses_R", "Arr_R", "Rec_dec", "Union"],
+                  ["E_1", "E_2", "Outer_E", "Uses_E", "Bad_sym"], ["F_4", "F_2", "Outer_E", "Bad_dup"],
+                  ["UAB_1", "UAB_2"], ["Dec_30", "Dec_3", "Rec_dec"], list(self.keys)]
+        self.focus = ch.pick(groups)
+        self.focus_pct = ch.pick([0, 60, 90])
+
+    def pick_key(self):
+        if self.ch.chance(self.focus_pct):
+            return self.ch.pick(self.focus)
+        return self.ch.pick(self.keys)
+
+    DIR_FILES = {
+        "LC": {"type": "record", "name": "LC", "fields": [{"name": "v", "type": "int"}]},
+        "LB": {"type": "record", "name": "LB", "fields": [{"name": "c", "type": "LC"}]},
+        "LA": {"type": "record", "name": "LA", "fields": [{"name": "c", "type": "LC"}, {"name": "b", "type": "LB"}]},
+        "LE": {"type": "enum", "name": "LE", "symbols": ["P", "Q"]},
+        "LTop": {"type": "record", "name": "LTop", "fields": [{"name": "b", "type": ["null", "LB"]}, {"name": "e", "type": "LE"}, {"name": "c", "type": {"type": "array", "items": "LC"}}]},
+        "LMissing": {"type": "record", "name": "LMissing", "fields": [{"name": "n", "type": "LNope"}]},
+    }
+
+    def schema_dir(self):
+        """A directory of per-type schema files that lives for the whole history (removed by
+        run_one); the fresh evaluations read the same files."""
+        if self.tmpdir is None:
+            import os
+            import tempfile
+            self.tmpdir = tempfile.mkdtemp(prefix="verif-c17-")
+            for name, sch in self.DIR_FILES.items():
+                with open(os.path.join(self.tmpdir, name + ".avsc"), "w") as f:
+                    json.dump(sch, f)
+        return self.tmpdir
 
     def new(self, prefix):
         self.n += 1
@@ -180,7 +221,7 @@ class History:
     def schema_ref(self, key=None):
         ch = self.ch
         if key is None:
-            key = ch.pick(self.keys)
+            key = self.pick_key()
         cands = [p for p in self.parsed if p[1] == key]
         if cands and ch.chance(50):
             self.ctx.probe("parsed_reused")
@@ -189,8 +230,8 @@ class History:
 
     def next_desc(self):
         ch = self.ch
-        k = ch.weighted([6, 5, 4, 3, 3, 2, 3, 2, 2, 2, 2, 1, 1, 1, 1, 1])
-        key = ch.pick(self.keys)
+        k = ch.weighted([6, 5, 4, 3, 3, 2, 3, 2, 2, 2, 2, 4, 1, 1, 1, 1])
+        key = self.pick_key()
         if k == 0:
             into = ch.pick(self.dicts) if ch.chance(50) else None
             if into:
@@ -246,6 +287,8 @@ class History:
             if cands:
                 b = ch.pick(cands)
                 d = {"op": ch.pick(["cread", "cread", "bread", "is_avro"]), "bytes": b[0]}
+                if d["op"] == "cread" and ch.chance(40):
+                    d["opts"] = {"return_record_name": True}
                 if d["op"] == "cread" and ch.chance(30):
                     d["reader"] = self.schema_ref()[0]
                     self.ctx.probe("reader_schema_call")
@@ -273,6 +316,16 @@ class History:
             self.texts.append((out, key, sref))
             self.ctx.probe("json_call")
             return {"op": "jwrite", "schema": sref, "records": rname, "out": out}
+        if k == 9 and ch.chance(35):
+            # hand-written JSON with fields absent: the reader must fill schema defaults
+            self.ctx.probe("json_call")
+            key2 = ch.pick(["R_b", "R_ns", "Outer_R"])
+            texts = {"R_b": ['{"b": "x"}', '{"b": "y", "l": [7]}'], "R_ns": ['{"a": 1}', '{"a": 2, "m": {"q": 3}}'],
+                     "Outer_R": ['{"r": {"z": 1.0}}', '{"r": {"z": 1.0}, "again": null}']}
+            tname = self.new("JT")
+            self.base[tname] = "\n".join(ch.pick(texts[key2]) for _ in range(1 + ch.draw(3)))
+            self.E[tname] = self.base[tname]
+            return {"op": "jread", "schema": self.schema_ref(key2)[0], "text": tname}
         if k == 9 and self.texts:
             t = ch.pick(self.texts)
             self.ctx.probe("json_call")
@@ -298,6 +351,13 @@ class History:
                     "opts": {"sync_marker": b"\x02" * 16, "sync_interval": ch.pick([1, 16000]), "codec": ch.pick(["null", "deflate"])}}
         if k == 12:
             self.ctx.probe("load_call")
+            if ch.chance(60):
+                # one directory that lives for the whole history: several loads see the same files
+                top = ch.pick(["LA", "LB", "LC", "LTop", "LMissing"])
+                d = {"op": "load_dir", "dir": self.schema_dir(), "top": top}
+                if ch.chance(25):
+                    d["ordered"] = ch.pick([["LC", "LB", "LA"], ["LC", "LB"], ["LE", "LC", "LB", "LTop"]])
+                return d
             files = {"Top": {"type": "record", "name": "Top", "fields": [{"name": "c", "type": "Child"}, {"name": "e", "type": "E"}]},
                      "Child": {"type": "record", "name": "Child", "fields": [{"name": "e", "type": "E"}]},
                      "E": ch.pick([self.fam["E_1"], self.fam["E_2"]])}
@@ -382,6 +442,15 @@ def run_one(ch, ctx):
     srv = fresh.server()
     F = common.fa()
     H = History(ch, ctx)
+    try:
+        _run(ch, ctx, srv, F, H)
+    finally:
+        if H.tmpdir:
+            import shutil
+            shutil.rmtree(H.tmpdir, ignore_errors=True)
+
+
+def _run(ch, ctx, srv, F, H):
     n_calls = 5 + ch.draw(56 if ctx.tier == "thorough" else 30)
     descs = []
     obs = []
